@@ -31,28 +31,29 @@ func CalculateAssignedTimeForVerif(
 
 // StepForVerif runs one iteration of Start (without the sleep): the validity query, the refresh of the
 // internal maps and the body of execute, with `now` instead of time.Now(). It returns the prices handed to
-// the submitter (nil when none) and whether the round ran at all.
-func (s *Signaller) StepForVerif(now time.Time) ([]types.SignalPrice, bool) {
+// the submitter (nil when none), the signal ids that were not in flight when the round looked, and whether
+// the round ran at all.
+func (s *Signaller) StepForVerif(now time.Time) ([]types.SignalPrice, []string, bool) {
 	resp, err := s.feedQuerier.QueryValidValidator(s.valAddress)
 	if err != nil || !resp.Valid {
-		return nil, false
+		return nil, nil, false
 	}
 	if !s.updateInternalVariables() {
-		return nil, false
+		return nil, nil, false
 	}
 
 	nonPendingSignalIDs := s.getNonPendingSignalIDs()
 	if len(nonPendingSignalIDs) == 0 {
-		return nil, true
+		return nil, nonPendingSignalIDs, true
 	}
 	res, err := s.bothanClient.GetPrices(nonPendingSignalIDs)
 	if err != nil {
-		return nil, true
+		return nil, nonPendingSignalIDs, true
 	}
 	signalPrices := s.filterAndPrepareSignalPrices(res.Prices, nonPendingSignalIDs, now)
 	if len(signalPrices) == 0 {
-		return nil, true
+		return nil, nonPendingSignalIDs, true
 	}
 	s.submitPrices(signalPrices, res.Uuid)
-	return signalPrices, true
+	return signalPrices, nonPendingSignalIDs, true
 }
